@@ -179,11 +179,15 @@ val repeat : 'a1 -> nat -> 'a1 list
 
 val nthZ : 'a1 -> 'a1 list -> z -> 'a1
 
+val zlen : 'a1 list -> z
+
 val zseq : z -> nat -> z list
 
 val upd : 'a1 list -> nat -> 'a1 -> 'a1 list
 
 val updZ : 'a1 list -> z -> 'a1 -> 'a1 list
+
+val sumZ : z list -> z
 
 val minl : z -> z list -> z
 
@@ -232,6 +236,8 @@ val reflect_spec : z -> z -> z
 val mirror_spec : z -> z -> z
 
 val border_map : z -> z -> z -> z option
+
+val border_pos : z -> z list -> z list -> z list option
 
 val clampos : z list -> z list -> z list
 
@@ -339,3 +345,21 @@ val psubm : dt -> z list -> z list -> z list
 val mh_tophat_open : dt -> arr -> arr -> z list
 
 val mh_tophat_close : dt -> arr -> arr -> z list
+
+val conv_at : z -> arr -> arr -> z list -> z
+
+val convolve_generic : z -> arr -> arr -> z list
+
+val sample : z -> arr -> z list -> z
+
+val conv_spec : z -> arr -> arr -> z list -> z
+
+val conv_spec_all : z -> arr -> arr -> z list
+
+val dot_interior : z list -> z list -> z -> z -> z
+
+val dot_border : z -> z list -> z list -> z -> z -> z
+
+val row_fast : z -> z list -> z list -> z list -> z list
+
+val row_spec : z -> z list -> z list -> z list
